@@ -1,1 +1,60 @@
-import PyshaclModel
+/-
+  C02 — a shape validates exactly the focus nodes its target declarations select.
+  `focusNodes` is the mirror of `Shape.focus_nodes` (tied to /repo by the `validate` op: a constraint
+  failing once per focus node makes the focus set observable); `IsTarget` is the W3C definition with
+  SHACL instances as `rdf:type/rdfs:subClassOf*` (a reflexive-transitive closure, any chain or cycle).
+-/
+import PyshaclProofs.TargetProofs
+import PyshaclModel.Eval
+namespace Pyshacl.C02
+open Pyshacl
+
+theorem focus_exact (sg dg : Graph) (node n : Term) :
+    n ∈ focusNodes sg dg node ↔ IsTarget sg dg node n := Pyshacl.focus_exact sg dg node n
+
+theorem each_focus_once (sg dg : Graph) (node : Term) : (focusNodes sg dg node).Nodup :=
+  Pyshacl.focus_nodup sg dg node
+
+/-- a shape without targets validates nothing by itself -/
+theorem no_targets_validates_nothing (c : Ctx) (fuel : Nat) (s : Shape)
+    (h : ∀ n, ¬ IsTarget c.sg c.dg s.node n) :
+    validateShape c fuel s none none = .ok (true, []) := by
+  have hf : focusNodes c.sg c.dg s.node = [] := by
+    cases hfl : focusNodes c.sg c.dg s.node with
+    | nil => rfl
+    | cons x xs =>
+      exfalso
+      exact h x ((Pyshacl.focus_exact c.sg c.dg s.node x).1 (by rw [hfl]; simp))
+  cases fuel <;> simp [validateShape, validateBody, resolveFocus, hf]
+
+/-- the focus list a top-level evaluation works on is the target set (filtered by `focus_nodes` if given) -/
+theorem toplevel_focus_from_targets (c : Ctx) (s : Shape) (fl : List Term)
+    (h : resolveFocus c s none = some fl) : ∀ n ∈ fl, IsTarget c.sg c.dg s.node n := by
+  intro n hn
+  unfold resolveFocus at h
+  simp only [] at h
+  split at h
+  · cases h
+  · split at h
+    · split at h
+      · split at h
+        · cases h
+        · cases h
+          rw [mem_dedup, List.mem_filter] at hn
+          exact (Pyshacl.focus_exact _ _ _ _).1 hn.1
+      · cases h
+        rw [mem_dedup] at hn
+        exact (Pyshacl.focus_exact _ _ _ _).1 hn
+    · cases h
+      rw [mem_dedup] at hn
+      exact (Pyshacl.focus_exact _ _ _ _).1 hn
+
+/-! non-vacuity: a subclass cycle and an instance of a subclass -/
+def exN (s : String) : Term := .iri ("http://ex.test/" ++ s)
+def dgEx : Graph :=
+  [⟨exN "a", rdfType, exN "D"⟩, ⟨exN "D", rdfsSubClassOf, exN "C"⟩, ⟨exN "C", rdfsSubClassOf, exN "D"⟩,
+   ⟨exN "b", exN "p", .lit ⟨"x", "", "", .str, false⟩⟩]
+def sgEx : Graph := [⟨exN "S", shTargetClass, exN "C"⟩, ⟨exN "S", shTargetObjectsOf, exN "p"⟩]
+example : focusNodes sgEx dgEx (exN "S") = [exN "a", .lit ⟨"x", "", "", .str, false⟩] := by decide
+
+end Pyshacl.C02
